@@ -303,6 +303,9 @@ func genHand(seed int64, allow map[string]bool) *Scenario {
 	default:
 		b.sc.Blind = []int64{1, ante, 0, 1, 2}
 	}
+	if r.Intn(5) == 0 {
+		b.sc.SlowAct = 15 + r.Intn(25)
+	}
 	k := 2 + r.Intn(min(b.sc.N-1, 6))
 	b.seatPlayers(k)
 	if r.Intn(2) == 0 && len(b.ids) < b.sc.N { // a seated player who never joins (sitting out)
